@@ -200,6 +200,9 @@ def c04_e2e_lines(r, n):
                 (good.upper(), "a", 1), ("cosmos1qyqszqgpqyqszqgpqyqszqgpqyqszqgpjnp7du", "a", 1), (good, "a", str(2 ** 256))]:
         cases.append((10 ** 6, [bad]))
         cases.append((10 ** 6, [(other, "b", 100), bad]))
+        cases.append((10 ** 6, [bad, (other, "b", 100)]))
+        cases.append((10 ** 6, [(other, "b", 100), bad, (good, "a", 5)]))
+        cases.append((10 ** 6, [(bad[0], "b", 100), bad]))
     for _ in range(n):
         A = r.choice([1, 7, 100, 10 ** 4, 10 ** 6, 10 ** 9, 10 ** 18]) if r.chance(1, 2) else r.range(1, 10 ** 12)
         es = []
